@@ -49,6 +49,9 @@ type Node struct {
 // Inst returns the current netceptor instance.
 func (n *Node) Inst() *netceptor.Netceptor { n.mu.Lock(); defer n.mu.Unlock(); return n.N }
 
+// Generation returns the incarnation number (incremented by every restart).
+func (n *Node) Generation() int { n.mu.Lock(); defer n.mu.Unlock(); return n.Gen }
+
 // IsAlive reports whether the node is running.
 func (n *Node) IsAlive() bool { n.mu.Lock(); defer n.mu.Unlock(); return n.Alive }
 
